@@ -11,6 +11,7 @@ def main():
         rt.miri_prepare()
         import api
         api.setup()
+        api.run_miri_programs(0, 2, "setup", dict(out_structs=True, owned_slices=True, callbacks=True, opt_owned=True), 10)
         import wasm32
         wasm32.sysroot()
         common.cargo_build_crate(common.instantiate_crate("hirdump"), "stable", bin_name="hirdump")
